@@ -175,6 +175,33 @@ def clean_world(tag, ci, upd, sortopt, stale, sorted_file, eol='lf'):
     return w
 
 
+def hollow_world(tag, ci, upd, sortopt, shape):
+    """a snapshot file that a test of the run refers to but that holds no complete entry (an empty file, blank
+    lines only, an entry that lost its terminator): the test fails with `snapshot not found` (creation is not
+    allowed: Update(false)), and Clean - in every mode - leaves that file alone: it is addressed, not obsolete"""
+    w = World(tag)
+    w.add(mode_line(ci, upd))
+    w.add(cfg_line(1, 'snaps', 'f', None, 'false'))
+    content = {'empty': b'', 'blank': b'\n\n', 'unterminated': b'\n[TestC - 1]\nvalue one\n'}[shape]
+    w.add('fsput %s %s' % (hx('snaps/f.snap'), hx(content)))
+    w.add('fsput %s %s' % (hx('snaps/notes.txt'), hx(b'keep me')))
+    w.add('begin 1 %s' % hx(b'TestC'))
+    w.add('snap 1 1 %s' % hx(b'value one'), ('missing-entry-fails-without-writing', suites.exp_one_error_no_write))
+    w.add('end 1')
+    ref = w.add('fsdump')
+    w.add('clean %s - 1' % sortopt)
+
+    def exp_fs(line, raw, ww):
+        a, b = parse_fs(ww.impl[ref]), parse_fs(raw)
+        if a != b:
+            gone = sorted(set(a) - set(b))
+            return 'Clean %s a file that a test of the run addressed (it holds no complete entry, but it is not obsolete)' % (
+                'removed' if gone else 'rewrote')
+        return None
+    w.add('fsdump', ('addressed-hollow-file-untouched', exp_fs))
+    return w
+
+
 def known(w, p):
     if p['kind'] == 'expect' and 'D5' in w.flags:
         return 'D5'
@@ -209,6 +236,11 @@ def all_cells(envfilter=None):
         for eol in ('crlf', 'gaps'):
             n += 1
             worlds.append(clean_world('clean-%d-%s' % (n, eol), ci, upd, sortopt, stale, sorted_file, eol=eol))
+    for ci, upd, sortopt, shape in itertools.product([False, True], UPDS, ['-', '1'], ['empty', 'blank', 'unterminated']):
+        if envfilter and envfilter != (ci, upd):
+            continue
+        n += 1
+        worlds.append(hollow_world('hollow-%d' % n, ci, upd, sortopt, shape))
     return worlds
 
 
@@ -226,6 +258,18 @@ def run(ctx):
                 env['UPDATE_SNAPS'] = upd
             ws = all_cells((ci, upd))
             run_suite(ctx, 'modes.realenv[%s,%s]' % ('ci' if ci else 'noci', upd or 'unset'), ws, env=env, known=known, chunk=500)
+    # CI services that do not export `CI`: the detection (ciinfo) is an input of the mode table, but which
+    # environments count as CI is part of what "CI is read-only" means to a user of Jenkins, TeamCity, Azure
+    # Pipelines ...: the CI column of the table again, in processes started with their variables only
+    vendors = [('jenkins', {'JENKINS_URL': 'http://ci.example', 'BUILD_ID': '12'}), ('teamcity', {'TEAMCITY_VERSION': '2024.03'}),
+               ('azure', {'TF_BUILD': 'True'}), ('generic-build-number', {'BUILD_NUMBER': '7'})]
+    for vname, venv in vendors if ctx.tier == 'thorough' else vendors[:2]:
+        for upd in ('', 'true'):
+            env = dict(venv, VERIF_REALENV='1')
+            if upd:
+                env['UPDATE_SNAPS'] = upd
+            ws = [w_ for w_ in all_cells((True, upd))]
+            run_suite(ctx, 'modes.realenv-vendor[%s,%s]' % (vname, upd or 'unset'), ws, env=env, known=known, chunk=500)
     # other spellings of the environment variable, and existing-but-empty standalone snapshots
     ws = []
     k = 0
